@@ -44,6 +44,26 @@ theorem w16_wrapU (x : Int) : w16 ((wrapU 16 x : Nat) : Int) = w16 x := by
   have h := Int.emod_nonneg x (show (65536 : Int) ≠ 0 by decide)
   rw [Int.toNat_of_nonneg h, Int.emod_emod_of_dvd _ (by decide : (65536 : Int) ∣ 65536)]
 
+/-- GSM_MULT_R of two int16 values that are not both MIN_WORD is an int16 value: the `int16_t` assignment keeps it -/
+theorem multR_range (a b : Int) (ha : W16 a) (hb : W16 b) (hne : ¬ (a = -32768 ∧ b = -32768)) : W16 (multR a b) := by
+  have hp := prod_bound a b ha hb hne
+  unfold multR
+  rw [asr15]
+  unfold W16; omega
+
+/-- with a positive first operand (a table constant) in particular -/
+theorem multR_range_pos (a b : Int) (ha : 0 ≤ a ∧ a ≤ 32767) (hb : W16 b) : W16 (multR a b) :=
+  multR_range a b (by unfold W16; omega) hb (by omega)
+
+theorem gsmMultR_eq (a b : Int) (ha : W16 a) (hb : W16 b) :
+    gsmMultR a b = (if a = -32768 ∧ b = -32768 then 32767 else (a * b + 16384) / 32768) := by
+  unfold gsmMultR
+  by_cases h : a = -32768 ∧ b = -32768
+  · rw [if_pos h, if_pos h]
+  · rw [if_neg h, if_neg h, w16_wrapU, asr15]
+    have hp := prod_bound a b ha hb h
+    exact w16_id _ (by unfold W16; omega)
+
 /-! ## binary digits -/
 
 theorem bitlenAux_zero (f : Nat) : bitlenAux f 0 = 0 := by cases f <;> simp [bitlenAux]
